@@ -26,13 +26,22 @@ namespace nmtools::index
             if constexpr (meta::is_index_array_v<axes_t>) {
                 auto in_axis = static_cast<bool>(
                     index::count([&](const auto ii){
-                        using common_t = meta::promote_index_t<decltype(ii),size_t>;
-                        return (common_t)ii == (common_t)i;
+                        // a negative axis counts from the end
+                        auto normalized_axis = static_cast<nm_index_t>(ii);
+                        if (normalized_axis < 0) {
+                            normalized_axis += static_cast<nm_index_t>(dim);
+                        }
+                        return normalized_axis == static_cast<nm_index_t>(i);
                     }, axes)
                 );
                 nmtools::get<2>(at(result,i)) = in_axis ? -1 : 1;
             } else if constexpr (meta::is_index_v<axes_t>) {
-                nmtools::get<2>(at(result,i)) = ((size_t)axes == i) ? -1 : 1;
+                // a negative axis counts from the end
+                auto normalized_axis = static_cast<nm_index_t>(axes);
+                if (normalized_axis < 0) {
+                    normalized_axis += static_cast<nm_index_t>(dim);
+                }
+                nmtools::get<2>(at(result,i)) = (normalized_axis == static_cast<nm_index_t>(i)) ? -1 : 1;
             } else if constexpr (is_none_v<axes_t>) {
                 nmtools::get<2>(at(result,i)) = -1;
             }
